@@ -42,8 +42,10 @@ Inductive eff :=
    infeasible paths); all other conditions are free *)
 Inductive condk :=
 | CRetErrAndStream         (* "strErr != nil && s != nil" in a deferred literal *)
-| CEffect (etrue efalse : eff).   (* a condition whose outcome tells something about the
+| CEffect (etrue efalse : eff)    (* a condition whose outcome tells something about the
                                      resources: the effect of the taken branch is applied *)
+| CSetFlag                        (* the branch taken is remembered ... *)
+| CTestFlag.                      (* ... and a later condition on the same local variable must agree *)
 
 Inductive aev :=
 | AEff (e : eff)
@@ -185,6 +187,46 @@ Definition fn_ws_dial_scope := mkFn "ws_dial_scope"
   [("t.maDial", (AcqRaw, Nop, Impossible))]
   [("t.upgrader.Upgrade", "upgrade_outer")] [] [] Nop [].
 
+(* QUIC transport: the quic connection plays the role of the raw connection *)
+Definition fn_quic_dial := mkFn "quic_dial"
+  [("t.rcmgr.OpenConnection", (AcqScope, Nop, Impossible));
+   ("scope.Done", (RelScope, RelScope, RelScope));
+   ("t.holePunch", (HandOver, HandOver, HandOver))]     (* hole punching is a separate path, not modelled *)
+  [("t.dialWithScope", "quic_dial_scope")] [] [] Nop [].
+
+Definition fn_quic_dial_scope := mkFn "quic_dial_scope"
+  [("t.connManager.DialQUIC", (AcqRaw, Nop, Impossible));
+   ("pconn.CloseWithError", (RelRaw, RelRaw, RelRaw))]
+  [] [] [] Nop
+  ["pconn.ConnectionState"; "pconn.LocalAddr"; "quic.ApplicationErrorCode"; "quicreuse.ToQuicMultiaddr";
+   "quicreuse.WithAssociation"; "scope.SetPeer"; "t.addConn"; "t.gater.InterceptSecured"; "t.identity.ConfigForPeer"].
+
+Definition fn_quic_wrap_scope := mkFn "quic_wrap_scope"
+  [] [] [] [] Nop
+  ["connScope.SetPeer"; "p2ptls.PubKeyFromCertChain"; "peer.IDFromPublicKey"; "qconn.ConnectionState";
+   "qconn.ConnectionState().Version.String"; "qconn.RemoteAddr"].
+
+Definition fn_quic_wrap := mkFn "quic_wrap"
+  [("network.UnwrapConnManagementScope", (AcqScope, Nop, Impossible));
+   ("l.rcmgr.OpenConnection", (AcqScope, Nop, Impossible));
+   ("connScope.Done", (RelScope, RelScope, RelScope))]
+  [("l.wrapConnWithScope", "quic_wrap_scope")] []
+  [("connScope == nil", CEffect NoScope Nop)]     (* nil: the context carried no scope after all *)
+  Nop
+  ["qconn.Context"; "qconn.ConnectionState"; "qconn.RemoteAddr"; "quicreuse.ToQuicMultiaddr"].
+
+Definition fn_quic_accept := mkFn "quic_accept"
+  [("l.reuseListener.Accept", (AcqRaw, Nop, Impossible));
+   ("qconn.CloseWithError", (RelRaw, RelRaw, RelRaw));
+   ("c.closeWithError", (RelConn, RelConn, RelConn))]
+  [("l.wrapConn", "quic_wrap")]
+  [("holePunch.connCh <- c", HandOver)]
+  [("ok && !holePunch.fulfilled", CSetFlag); ("wasHolePunch", CTestFlag)]
+  Nop
+  ["l.transport.addConn"; "l.transport.gater.InterceptAccept"; "l.transport.gater.InterceptSecured";
+   "l.transport.holePunchingMx.Lock"; "l.transport.holePunchingMx.Unlock"; "qconn.RemoteAddr";
+   "qconn.RemoteAddr().String"; "quic.ApplicationErrorCode"].
+
 Definition fn_conn_newstream := mkFn "conn_newstream"
   [("c.swarm.ResourceManager().OpenStream", (AcqSScope, Nop, Impossible));
    ("scope.Done", (RelSScope, RelSScope, RelSScope))]
@@ -231,20 +273,22 @@ Record st := mkSt {
   raw : res; cscope : res; strm : res; sscope : res;
   gor : nat; handed : bool;
   lastret : option retk; calleeret : option retk;
-  bad : list string
+  bad : list string;
+  flag : bool          (* one boolean local variable that two conditions of a path share *)
 }.
 
-Definition st0 := mkSt Absent Absent Absent Absent 0 false None None [].
+Definition st0 := mkSt Absent Absent Absent Absent 0 false None None [] false.
 
-Definition set_raw s x := mkSt x (cscope s) (strm s) (sscope s) (gor s) (handed s) (lastret s) (calleeret s) (bad s).
-Definition set_cscope s x := mkSt (raw s) x (strm s) (sscope s) (gor s) (handed s) (lastret s) (calleeret s) (bad s).
-Definition set_strm s x := mkSt (raw s) (cscope s) x (sscope s) (gor s) (handed s) (lastret s) (calleeret s) (bad s).
-Definition set_sscope s x := mkSt (raw s) (cscope s) (strm s) x (gor s) (handed s) (lastret s) (calleeret s) (bad s).
-Definition set_gor s x := mkSt (raw s) (cscope s) (strm s) (sscope s) x (handed s) (lastret s) (calleeret s) (bad s).
-Definition set_handed s := mkSt (raw s) (cscope s) (strm s) (sscope s) (gor s) true (lastret s) (calleeret s) (bad s).
-Definition set_ret s r := mkSt (raw s) (cscope s) (strm s) (sscope s) (gor s) (handed s) (Some r) (calleeret s) (bad s).
-Definition set_calleeret s r := mkSt (raw s) (cscope s) (strm s) (sscope s) (gor s) (handed s) (lastret s) (Some r) (bad s).
-Definition add_bad s m := mkSt (raw s) (cscope s) (strm s) (sscope s) (gor s) (handed s) (lastret s) (calleeret s) (m :: bad s).
+Definition set_raw s x := mkSt x (cscope s) (strm s) (sscope s) (gor s) (handed s) (lastret s) (calleeret s) (bad s) (flag s).
+Definition set_cscope s x := mkSt (raw s) x (strm s) (sscope s) (gor s) (handed s) (lastret s) (calleeret s) (bad s) (flag s).
+Definition set_strm s x := mkSt (raw s) (cscope s) x (sscope s) (gor s) (handed s) (lastret s) (calleeret s) (bad s) (flag s).
+Definition set_sscope s x := mkSt (raw s) (cscope s) (strm s) x (gor s) (handed s) (lastret s) (calleeret s) (bad s) (flag s).
+Definition set_gor s x := mkSt (raw s) (cscope s) (strm s) (sscope s) x (handed s) (lastret s) (calleeret s) (bad s) (flag s).
+Definition set_handed s := mkSt (raw s) (cscope s) (strm s) (sscope s) (gor s) true (lastret s) (calleeret s) (bad s) (flag s).
+Definition set_ret s r := mkSt (raw s) (cscope s) (strm s) (sscope s) (gor s) (handed s) (Some r) (calleeret s) (bad s) (flag s).
+Definition set_calleeret s r := mkSt (raw s) (cscope s) (strm s) (sscope s) (gor s) (handed s) (lastret s) (Some r) (bad s) (flag s).
+Definition set_flag s b := mkSt (raw s) (cscope s) (strm s) (sscope s) (gor s) (handed s) (lastret s) (calleeret s) (bad s) b.
+Definition add_bad s m := mkSt (raw s) (cscope s) (strm s) (sscope s) (gor s) (handed s) (lastret s) (calleeret s) (m :: bad s) (flag s).
 
 (* releasing is idempotent (Close/Done/Reset may be called twice); releasing
    something never acquired is recorded as Released too (harmless) *)
@@ -278,9 +322,12 @@ Definition astep (s : st) (a : aev) : option st :=
   | ACond CRetErrAndStream b =>
       if Bool.eqb b (is_err (lastret s) && negb (res_eqb (strm s) Absent)) then Some s else None
   | ACond (CEffect et ef) b => Some (apply_eff s (if b then et else ef))
+  | ACond CSetFlag b => Some (set_flag s b)
+  | ACond CTestFlag b => if Bool.eqb b (flag s) then Some s else None
   | ARet RTail => Some (match calleeret s with
                         | Some r => set_ret s r
-                        | None => add_bad s "tail return without callee" end)
+                        | None => if handed s then set_ret s ROk   (* `return f(...)` of an unlisted f that took over *)
+                                  else add_bad s "tail return without callee" end)
   | ARet r => Some (set_ret s r)
   | ACalleeRet r => Some (set_calleeret s r)
   | AEnd => Some s
